@@ -207,11 +207,6 @@ func (c *Conn) Write(p []byte) (int, error) {
 	vsched.Yield()
 	w := c.wr
 	total := 0
-	if w.tap != nil {
-		w.tap.Data = append(w.tap.Data, p...)
-		w.tap.Writes = append(w.tap.Writes, len(p))
-		w.tap.Times = append(w.tap.Times, now())
-	}
 	for {
 		if c.closed || w.closed {
 			return total, io.ErrClosedPipe
@@ -234,6 +229,11 @@ func (c *Conn) Write(p []byte) (int, error) {
 		}
 		if room > 0 {
 			chunk := p[:room]
+			if w.tap != nil { // the tap sees exactly the bytes the network accepted
+				w.tap.Data = append(w.tap.Data, chunk...)
+				w.tap.Writes = append(w.tap.Writes, room)
+				w.tap.Times = append(w.tap.Times, now())
+			}
 			if w.opts.Mangle != nil {
 				chunk = w.opts.Mangle(w.wrOff, append([]byte(nil), chunk...))
 			}
